@@ -196,7 +196,7 @@ def run(ctx, pid, phases, title, extra_tb, rule):
                 import time as _t
                 t0 = _t.time()
                 i = 0
-                allph = ["counter", "list", "setnx", "multi", "setalg", "conserve", "book", "misc", "expiry", "pairs", "bigval", "keyscan", "hotlist"]
+                allph = ["counter", "list", "setnx", "multi", "setalg", "conserve", "book", "misc", "expiry", "pairs", "bigval", "keyscan", "hotlist", "hotmulti"]
                 while not viol and _t.time() - t0 < (300 if thorough else 45):
                     i += 1
                     kwf = dict(threads=8, focus=named)
